@@ -1,11 +1,18 @@
 (* C16 — multipart/form-data bodies round-trip part for part.  Property theorems only.
-   FULL statement (not proved in general yet): for every non-empty part list (each part with at least one well-formed header, any body
-   bytes) and every boundary whose hyphen-less form ends no body line:  multipart_parse (multipart_generate parts b) b = MOk parts. *)
-From Rws Require Import Str Utf8 Num Request GenCodec Forms C16Proof.
+   FULL statement, proved (C16_round_trip): for every list of parts - each with at least one header whose name is printable ASCII
+   without blank and colon and whose value is printable ASCII not beginning or ending with a blank, and a body of ARBITRARY bytes - and
+   every boundary of printable non-blank ASCII with at least one character that is not a hyphen, such that no header line and no line
+   of a body (its closing CRLF included) is taken for a delimiter:  multipart_parse (multipart_generate parts b) b = MOk parts. *)
+From Rws Require Import Str Utf8 Num Request GenCodec Forms FormsDomain C16Proof C16Round.
 Open Scope N_scope.
 
-Definition C16_full : Prop := forall parts b, parts <> [] -> (* well-formedness elided, see above *) True ->
-  multipart_parse (multipart_generate parts b) b = MOk parts.
+Theorem C16_round_trip : forall bd ps, bd_ok bd = true -> forallb (part_ok bd) ps = true ->
+  multipart_parse (multipart_generate ps bd) bd = MOk ps.
+Proof. exact multipart_round_trip. Qed.
+(* the domain is inhabited: two headers, bodies that are empty, binary, end in CR / LF / CRLF, contain dashes; boundaries with leading dashes and an interior hyphen *)
+Theorem C16_domain_inhabited : multipart_in_domain parts_rep B1 = true /\ multipart_in_domain parts_rep BD_INNER = true /\
+  multipart_in_domain [mkPart [H1] [0; 255; 13; 10; 45; 45; 13]; mkPart [H1; H2] []; mkPart [H2] [10]] [45; 45; 45; 45; 120; 57] = true.
+Proof. vm_compute. repeat split. Qed.
 
 Theorem C16_roundtrip_partial :
   multipart_parse (multipart_generate parts_rep B1) B1 = MOk parts_rep /\
